@@ -183,6 +183,10 @@ def closure_insert_order(ctx: Ctx, rs: RuleSet, mk):
                'earlier cell')
       else:
         why = 'insertion order of the handler cells cannot be established'
+    elif loop is not None and _enumerated_freevars(ctx, mk, loop, c):
+      ok = True
+      why = ('the cells are inserted while enumerating co_freevars: indices '
+             'ascend by construction')
     elif loop is not None and isinstance(loop.iter, (ast.Tuple, ast.List)):
       # a literal sequence of (handler id, handler): ascending iff the ids
       # are in ascending name order (co_freevars is sorted by name)
@@ -201,6 +205,47 @@ def closure_insert_order(ctx: Ctx, rs: RuleSet, mk):
       else:
         why = 'insertion order of the handler cells cannot be established'
     rs.check(ok, rule, key, why, ctx.loc(mk, c))
+
+
+def _enumerated_freevars(ctx, mk, loop, insert_call) -> bool:
+  """The loop walks (index, name) pairs taken from enumerate(co_freevars) -
+  directly or through a comprehension that filters them / wraps them in a
+  small record - and the insertion index is that enumerate index."""
+  it = roles.deref(mk, loop.iter) if isinstance(loop.iter, ast.Name) else (
+      loop.iter)
+  idx_expr = insert_call.args[0]
+
+  def enum_of_freevars(e):
+    return (isinstance(e, ast.Call) and unparse(e.func) == 'enumerate' and
+            e.args and 'co_freevars' in unparse(
+                roles.deref_deep(mk, e.args[0])))
+
+  if enum_of_freevars(it):
+    tg = loop.target
+    return isinstance(tg, ast.Tuple) and len(tg.elts) == 2 and unparse(
+        idx_expr) == unparse(tg.elts[0])
+  if isinstance(it, (ast.ListComp, ast.GeneratorExp)) and len(
+      it.generators) == 1 and enum_of_freevars(it.generators[0].iter):
+    gt = it.generators[0].target
+    if not (isinstance(gt, ast.Tuple) and len(gt.elts) == 2 and isinstance(
+        gt.elts[0], ast.Name)):
+      return False
+    idx = gt.elts[0].id
+    elt = it.elt
+    if isinstance(elt, ast.Tuple) and isinstance(loop.target, ast.Tuple) and (
+        len(elt.elts) == len(loop.target.elts)):
+      for e_, t_ in zip(elt.elts, loop.target.elts):
+        if isinstance(e_, ast.Name) and e_.id == idx:
+          return unparse(idx_expr) == unparse(t_)
+      return False
+    if isinstance(elt, ast.Call) and isinstance(loop.target, ast.Name):
+      b = ctx.bound_args(elt, mk) or {}
+      fields = [k for k, v in b.items() if isinstance(v, ast.Name) and
+                v.id == idx]
+      return isinstance(idx_expr, ast.Attribute) and isinstance(
+          idx_expr.value, ast.Name) and idx_expr.value.id == loop.target.id and (
+              idx_expr.attr in fields)
+  return False
 
 
 def _is_freevar_index(mk, e) -> bool:
